@@ -21,7 +21,11 @@ def generate():
     with V.Lock("syntax-gen"):
         reg = S.TR.read_dump(S.TR.dump(harness))
         a = S.write_if_changed(os.path.join(gen, "Registry.v"), lambda p: S.TR.translate(reg, p))
-        b = S.write_if_changed(os.path.join(gen, "Grammar.v"), lambda p: S.TG.translate(V.REPO, p))
+        try:
+            b = S.write_if_changed(os.path.join(gen, "Grammar.v"), lambda p: S.TG.translate(V.REPO, p))
+        except Exception as e:
+            e.kept = ["Registry"]          # the registry was read; only the grammar / yylex translation is broken
+            raise
     return {"registry": a, "grammar": b}
 
 
